@@ -4,6 +4,20 @@ from vlib.core import Check, ROOT
 from vlib.xh import Harness, Batch
 
 
+RANGE_WITNESS = '''\
+import sys, warnings, logging; warnings.simplefilter('ignore'); logging.disable(logging.CRITICAL)
+import formulas
+P = "'[b]S'!"
+d = {P + 'A1': False, P + 'B1': '=IF(%sA1,SUM(%sC1:C2),1)' % (P, P), P + 'C1': '=%sB1' % P, P + 'C2': '=%sB1+1' % P}
+sol = formulas.ExcelModel().from_dict(d).finish(circular=True).calculate()
+got = [sol[P + c].value[0, 0] for c in ('B1', 'C1', 'C2')]
+print('B1, C1, C2 =', got, '(1, 1, 2: the range is read only in the branch that is not selected)')
+if [str(x) for x in got] != ['1', '1', '2.0'] and got != [1, 1, 2]:
+    print('REPRODUCED: two cycles through one range inside an unselected IF branch do not resolve'); sys.exit(1)
+sys.exit(0)
+'''
+
+
 def run(tier, seed):
     ck = Check('C10', tier, seed, level='exploration')
     import formulas.excel.cycle as CY, formulas.excel as EX, formulas.cell as CE, formulas.functions.logic as LG
@@ -13,8 +27,9 @@ def run(tier, seed):
     ck.assume('adjacency matrices are boolean arguments (each graph is one path; the solver shows no graph is left)',
               'workbook level: formula kinds and the guard value are boolean selectors; the oracle is a lazy evaluator over the same ring plus the classification acyclic / unavoidable / must_resolve / free written from the statement (harness/c10_books.py)',
               'schedula workflow clock stubbed')
-    ck.out_of_scope('graphs with more than 4 nodes', 'cycles through ranges and defined names', 'cell orders other than the 4 listed insertion orders, hash seeds other than the listed ones (2 quick / 5 thorough)',
+    ck.out_of_scope('graphs with more than 4 nodes', 'cycles through defined names, ranges wider than two cells', 'cell orders other than the 4 listed insertion orders, hash seeds other than the listed ones (2 quick / 5 thorough)',
                     'rings longer than 3 cells')
+    ck.check_known_witness('C10-cycles-sharing-a-range', RANGE_WITNESS)
     quick = tier == 'quick'
     hs, batch = [], Batch()
     T = 170 if quick else 900
@@ -29,6 +44,7 @@ def run(tier, seed):
             batch.add(h, T, only=['cycles4_ok'], bounds='all loop-free digraphs on 4 nodes whose first adjacency row is %s (512 graphs)' % format(fix, '03b'))
         bsrc = open(os.path.join(ROOT, 'harness', 'c10_books.py')).read()
         b2 = open(os.path.join(ROOT, 'harness', 'c10_books2.py')).read()
+        b3 = open(os.path.join(ROOT, 'harness', 'c10_books3.py')).read()
         # cell order: every workbook is built in 4 insertion orders and must give one outcome; hash seed: the
         # exploration is repeated in processes under other PYTHONHASHSEED values, which compare every outcome
         # with a seed-0 child interpreter
@@ -39,6 +55,11 @@ def run(tier, seed):
                     continue
                 h = Harness(ck, 'c10_books_a%d_hs%d' % (ka, hsd), tag + bsrc.replace('__KIND_A__', str(ka))); hs.append(h)
                 batch.add(h, T, only=['book_ok'], bounds='ring A1->B1->C1->A1, A1 of kind %d, B1 and C1 any of 6 kinds (constant, plain, IF-then, IF-else, IFERROR fallback, both IF branches), guard TRUE/FALSE: 72 workbooks x 4 cell orders, PYTHONHASHSEED=%d' % (ka, hsd))
+            for kb in range(4):
+                if quick and hsd and kb % 2 != seed % 2:
+                    continue
+                h = Harness(ck, 'c10_books3_b%d_hs%d' % (kb, hsd), tag + b3.replace('__KB__', str(kb)).replace('__KNOWN__', 'True')); hs.append(h)
+                batch.add(h, T, only=['book3_ok'], bounds='cycles THROUGH A RANGE: B1 = expression #%d reading SUM(C1:C2) plainly or inside an IF branch, C1 and C2 any of 3 expressions each (constant, back reference, guarded back reference), both guards TRUE/FALSE: 36 workbooks x 4 cell orders, PYTHONHASHSEED=%d; known finding C10-cycles-sharing-a-range excluded' % (kb, hsd))
             for kb in range(6):
                 if quick and hsd and kb % 2 != seed % 2:
                     continue
